@@ -156,6 +156,46 @@ pub fn run(ctx: &mut Ctx) {
             ctx.broken("an i64 does not decode as PaymentAmount");
         }
     }
+    // the constructors on the wire, text form: a balance / amount read from a JSON number token is exactly the integer
+    // the token denotes, or the token is refused - never a truncated, rounded or saturated value.  `must` = has to decode.
+    idx += 1;
+    if ctx.begin_case(idx, "json-number-tokens") {
+        // (token, the integer it denotes if any, must it decode as a balance?)
+        let toks: Vec<(&str, Option<i128>, bool)> = vec![
+            ("0", Some(0), true), ("1000", Some(1000), true), ("9223372036854775807", Some(i64::MAX as i128), true),
+            ("9223372036854775808", Some(1i128 << 63), false), ("18446744073709551615", Some(u64::MAX as i128), false), ("18446744073709551616", Some(1i128 << 64), false),
+            ("-1", Some(-1), false), ("-0", Some(0), false), ("1000.0", Some(1000), false), ("1e3", Some(1000), false), ("1.5", None, false), ("-5.0", Some(-5), false), ("-0.5", None, false),
+            ("0.9999", None, false), ("9007199254740993.0", Some(9007199254740993), false), ("9223372036854775807.0", Some(i64::MAX as i128), false),
+            ("9223372036854775000.0", Some(9223372036854775000), false), ("1e19", Some(10_000_000_000_000_000_000), false), ("1e-1", None, false), ("4.9e-324", None, false),
+            ("\"1000\"", None, false), ("true", None, false), ("null", None, false), ("[1000]", None, false), ("{}", None, false),
+        ];
+        for (tok, denotes, must) in toks {
+            let rc = catch_unwind(|| serde_json::from_str::<CustomerBalance>(tok).map(|b| b.into_inner()).map_err(|e| e.to_string()));
+            let rm = catch_unwind(|| serde_json::from_str::<MerchantBalance>(tok).map(|b| b.into_inner()).map_err(|e| e.to_string()));
+            let ra = catch_unwind(|| serde_json::from_str::<PaymentAmount>(tok).map(|a| a.to_i64()).map_err(|e| e.to_string()));
+            ctx.evals += 3;
+            for (who, r) in [("CustomerBalance", &rc), ("MerchantBalance", &rm)] {
+                let good = match r {
+                    Err(_) => false,
+                    Ok(Ok(v)) => denotes == Some(*v as i128) && *v <= I64MAX,
+                    Ok(Err(_)) => !must,
+                };
+                ctx.count(&format!("json-token:{}:{}", who, match r { Err(_) => "PANIC", Ok(Ok(_)) => "value", Ok(Err(_)) => "refused" }));
+                if !good {
+                    ctx.violation(&format!("{} read from the JSON token `{}`: {:?} (the token denotes {:?}; a balance is an integer in [0, 2^63-1])", who, tok, r.as_ref().ok(), denotes), json!({"class": "json-token-not-exact", "type": who, "token": tok}));
+                }
+            }
+            let good = match &ra {
+                Err(_) => false,
+                Ok(Ok(v)) => denotes == Some(*v as i128),
+                Ok(Err(_)) => !(must),
+            };
+            ctx.count(&format!("json-token:PaymentAmount:{}", match &ra { Err(_) => "PANIC", Ok(Ok(_)) => "value", Ok(Err(_)) => "refused" }));
+            if !good {
+                ctx.violation(&format!("PaymentAmount read from the JSON token `{}`: {:?} (the token denotes {:?})", tok, ra.as_ref().ok(), denotes), json!({"class": "json-token-not-exact", "type": "PaymentAmount", "token": tok}));
+            }
+        }
+    }
     // try_add
     for &a in &lat {
         for &b in &lat {
